@@ -15,6 +15,9 @@ import time
 import traceback
 
 sys.path.insert(0, os.path.dirname(os.path.abspath(__file__)))
+for _v in ("OMP_NUM_THREADS", "OPENBLAS_NUM_THREADS", "MKL_NUM_THREADS", "NUMEXPR_NUM_THREADS"):
+    os.environ.setdefault(_v, "1")   # many worker processes: one thread each
+os.environ.setdefault("PYTHONHASHSEED", "0")
 
 import common  # noqa: E402
 from common import MachineryError  # noqa: E402
